@@ -16,7 +16,7 @@ from ..gamma import g_ctx, g_data, g_prog, prog_key
 from ..pool import pmap
 
 DETAILS = ["hash", "repr", "context", "all", "hash,repr", "repr,context"]
-MODES = ["file", "dir"]
+MODES = ["file", "dir", "dir.dotted"]
 
 
 def exp_shape(case) -> List[Dict[str, Any]]:
@@ -89,7 +89,7 @@ def replay_chunk(cases: List[Dict[str, Any]]):
     for case in cases:
         nodes = g_prog(case["prog"])
         h = zlib.crc32(repr(case["prog"]).encode() + repr(case["ictx"]).encode())
-        detail, mode = DETAILS[h % len(DETAILS)], MODES[(h // 7) % 2]
+        detail, mode = DETAILS[h % len(DETAILS)], MODES[(h // 7) % 3]
         data, ctx = g_data(case["idata"]), g_ctx(case["ictx"])
         obs = run_traced(nodes, data, ctx, detail=detail, mode=mode)
         if obs["construct_error"]:
